@@ -253,8 +253,97 @@ def hemisphere_numeric_verdict(repo, got, want):
     return ''
 
 
+def _none_test(cond):
+    """(symbol name, True if the condition holds when the symbol IS None) for eq/ne(sym, None) conditions, else None"""
+    a = _single_atom(cond) if isinstance(cond, Rat) else None
+    if a is None or a.kind != 'fn' or a.name not in ('eq', 'ne') or len(a.args) != 2 or 'None' not in a.args:
+        return None
+    other = [x for x in a.args if x != 'None']
+    sa = _single_atom(other[0]) if other and isinstance(other[0], Rat) else None
+    if sa is None or sa.kind != 'sym':
+        return None
+    return sa.name, a.name == 'eq'
+
+
+def cond_under(cond, is_none):
+    """truth of a condition built from None-tests of the symbols in is_none (and / or / not of them); None when something else is tested"""
+    if isinstance(cond, Bool):
+        return cond.b
+    nt = _none_test(cond)
+    if nt is not None:
+        return (is_none[nt[0]] == nt[1]) if nt[0] in is_none else None
+    a = _single_atom(cond) if isinstance(cond, Rat) else None
+    if a is None or a.kind != 'fn':
+        return None
+    if a.name == 'not' and isinstance(a.args[0], Rat):
+        t = cond_under(a.args[0], is_none)
+        return None if t is None else not t
+    if a.name in ('and', 'or') and all(isinstance(x, Rat) for x in a.args):
+        ts = [cond_under(x, is_none) for x in a.args]
+        if a.name == 'and':
+            return False if any(t is False for t in ts) else (None if any(t is None for t in ts) else True)
+        return True if any(t is True for t in ts) else (None if any(t is None for t in ts) else False)
+    return None
+
+
+def resolve_none(v, is_none):
+    """v under the assumption {symbol name: True when it is None}: None-tests of those symbols are decided, a symbol that is None becomes None"""
+    if isinstance(v, IteV):
+        t = cond_under(v.cond, is_none)
+        if t is not None:
+            return resolve_none(v.a if t else v.b, is_none)
+        return IteV(v.cond, resolve_none(v.a, is_none), resolve_none(v.b, is_none))
+    if isinstance(v, Obj) and not v.origin:
+        return Obj(v.cls, dict((k, resolve_none(x, is_none)) for k, x in v.fields.items()), origin=None)
+    if isinstance(v, CallV):
+        return CallV(resolve_none(v.rat, is_none), v.name)
+    if isinstance(v, Rat):
+        sa = _single_atom(v)
+        if sa is not None and sa.kind == 'sym' and is_none.get(sa.name):
+            return NONE
+        r = v
+        for _ in range(6):
+            hit = None
+            for k in r.atoms(deep=True):
+                at = alg.TABLE.atoms[k]
+                if at.kind == 'fn' and at.name == 'ite' and isinstance(at.args[0], Rat):
+                    t = cond_under(at.args[0], is_none)
+                    if t is not None:
+                        hit = (at, t)
+                        break
+            if hit is None:
+                break
+            at, t = hit
+            r = alg.subst(r, {at.id: at.args[1] if t else at.args[2]})
+        return r
+    return v
+
+
+def none_case_verdict(got, want, names):
+    """compare two results for every combination of the optional inputs being present / absent"""
+    import itertools
+    worst = 'equal'
+    for combo in itertools.product((False, True), repeat=len(names)):
+        asm = dict(zip(names, combo))
+        g, w_ = resolve_none(got, asm), resolve_none(want, asm)
+        r = compare_values(g, w_)
+        if r == 'different':
+            return 'different', '%s: %s' % (', '.join('%s %s' % (n_, 'absent' if v_ else 'given') for n_, v_ in asm.items()), field_diff(g, w_) or ('%s vs %s' % (show(g, 1, 80), show(w_, 1, 80))))
+        if r != 'equal':
+            worst = 'unknown'
+    return worst, ''
+
+
 def compare_objs(rep, rule, key, w, got, want, what, repo=None):
     r = compare_values(got, want)
+    if r == 'unknown':
+        r3, note3 = none_case_verdict(got, want, ['ell_ht', 'orth_ht', 'nval'])
+        if r3 == 'different':
+            rep.violated(rule, key, w, what + ': differs from the reference when ' + note3, expected=show(want, 2, 300), actual=show(got, 2, 300))
+            return 'different'
+        if r3 == 'equal':
+            rep.holds(rule, key, w, what + ': equals the reference in every combination of the optional heights being given or absent')
+            return 'equal'
     if r == 'unknown' and repo is not None:
         hv_ = hemisphere_numeric_verdict(repo, got, want)
         if hv_:
@@ -405,7 +494,36 @@ def delegation_rules(repo, rep, only=None):
         if ok:
             rep.holds('R-WIRE', key, where(f, f.node), '%s = self.%s(...).%s(...) (threading checked by R-THREAD)' % (q, parts[0], parts[1]))
         else:
-            rep.undecided('R-WIRE', key, where(f, f.node), '%s is not the composition self.%s().%s()' % (q, parts[0], parts[1]))
+            # written out instead of composed: evaluate it and compare with the composition of the class's own two methods
+            cname_, mname_ = q.split('.')
+            cls_ = repo.cls('geodepy.coord', cname_)
+            ev = mk_eval(repo)
+            E = sym_ellipsoid(ev, repo, 'ellipsoid')
+            if cname_ == 'CoordTM':
+                Pp = sym_projection(ev, repo, 'self.projection')
+                me = sym_self(ev, repo, 'CoordTM', zone=zone, east=east, north=north, ell_ht=eh, orth_ht=oh, hemi_north=hn, projection=Pp)
+                args = {'self': me, f.params[1].name: E}
+            else:
+                Pp = sym_projection(ev, repo, 'projection')
+                me = sym_self(ev, repo, 'CoordCart', xaxis=x, yaxis=y, zaxis=z, nval=nv)
+                args = {'self': me, f.params[1].name: E, f.params[2].name: Pp}
+            try:
+                got = ev.call_function(f, args)
+                ev2 = mk_eval(repo)
+                E2 = sym_ellipsoid(ev2, repo, 'ellipsoid')
+                if cname_ == 'CoordTM':
+                    P2 = sym_projection(ev2, repo, 'self.projection')
+                    me2 = sym_self(ev2, repo, 'CoordTM', zone=zone, east=east, north=north, ell_ht=eh, orth_ht=oh, hemi_north=hn, projection=P2)
+                    mid = ev2.invoke(cls_.methods[parts[0]], [me2, E2], {}, None)
+                    want = ev2.apply(ev2.getattr(mid, parts[1], None), [E2], {}, None)
+                else:
+                    P2 = sym_projection(ev2, repo, 'projection')
+                    me2 = sym_self(ev2, repo, 'CoordCart', xaxis=x, yaxis=y, zaxis=z, nval=nv)
+                    mid = ev2.invoke(cls_.methods[parts[0]], [me2, E2], {}, None)
+                    want = ev2.apply(ev2.getattr(mid, parts[1], None), [E2, P2], {}, None)
+                compare_objs(rep, 'R-WIRE', key, where(f, f.node), got, want, '%s = self.%s(...).%s(...) of the class\'s own methods' % (q, parts[0], parts[1]), repo=repo)
+            except Exception as e_:
+                rep.undecided('R-WIRE', key, where(f, f.node), '%s is not the composition self.%s().%s() and could not be evaluated: %s' % (q, parts[0], parts[1], e_))
     if only is None:
         rep.floor('R-WIRE', 16, 'conversion methods x notations')
 
@@ -583,6 +701,12 @@ def run(repo, rep):
     from . import c03
     c03.forward_rules(repo, rep)
     c03.inverse_rules(repo, rep)
+    # ... and a change of notation goes through the converters of geodepy.angles: the carry and digit rules of the sexagesimal producers
+    # (notation(HPAngle) of an angle one ulp below a whole degree is dec2hp of it) are part of this check too
+    from . import c08
+    c08.carry_rule(repo, rep)
+    c08.digit_rules(repo, rep)
+    alg.reset()
     rep.trust('opaque call atoms carry every formal parameter of the callee (defaults explicit); constructors of the coordinate classes are evaluated')
     rep.assume('latitude/longitude held as plain numbers are floats (type(x) == float folds to true for symbolic numbers in this module)')
     common.receiver_rule(repo, rep, 'geodepy.coord', ('geo', 'tm', 'cart', 'notation', '__round__', '__repr__', '__eq__'),
